@@ -219,6 +219,12 @@ def templates(rng):
     MA = _dc(m, "MutA", {"b": Optional["MutB"]}, {"b": None})
     MB = _dc(m, "MutB", {"a": Optional[MA], "n": Optional[SR]}, {"a": None, "n": None})
     out.append(("mutually recursive dataclasses", MA, [MA(MB(MA(), SR(1)))], {"self-reference"}))
+    # a nullable field with an overridden serialization method: None is written as null, the method is not called
+    def _compact(v: datetime.datetime) -> str:
+        return v.strftime("%Y%m%d")
+
+    NO = _dc(m, "NullOver", {"when": Optional[datetime.datetime], "n": int}, {"when": dataclasses.field(default=None, metadata=field_options(serialize=_compact)), "n": 0}, kw_only=True)
+    out.append(("nullable field with a callable serialize option", NO, [NO(), NO(when=datetime.datetime(2020, 1, 2))], {"overridden-serialization"}))
     # a field-level serialization_strategy whose serialize returns a container: applied to the field only
     from mashumaro.types import SerializationStrategy
 
